@@ -129,6 +129,17 @@ CLAIMS = {
         "for 222) - an open known finding pinned by orix tests. On the implementation every representative (equivalent() "
         "members, reduced-zone and Euler-region representatives) is fed to angle_with, the angle to a third orientation, "
         "in_fundamental_sector and the IPF colour key for all 38 groups."),
+ "C10": dict(category="proof", design_ref="DESIGN.md section 5 C10",
+   technique="Lean 4: orbit-stabiliser theorem and orbit/key lemmas for any action of a finite matrix group, instantiated on the regenerated point-group tables; list-level layout theorems for symmetrise; exact differential run on integer indices",
+   text="Proved for any action of a finite group list (C03) on any vector type: symmetrise is the list of images under all "
+        "operations; the multiplicity (number of distinct images) times the stabiliser order equals the group order, hence "
+        "divides it (orbit-stabiliser, via fibre counting); with unique=True the vectors are the distinct images grouped in "
+        "input order with one multiplicity per input and one index per returned vector; unique(use_symmetry=True) keeps "
+        "exactly one vector per orbit; two vectors have the same key (set of images) iff one is an image of the other. "
+        "Instantiated for every regenerated point-group table acting on integer indices. The symmetry-aware angle is the "
+        "minimum over the orbit by definition of the model; on the implementation it is compared with an independent brute "
+        "force, as are symmetrise (all flags, shapes, hkl/uvw/xyz), unique and the metadata. The 1e-10 rounding of "
+        "near-duplicates and Miller.round's float search are compared, not proved."),
 }
 REASONS = {}
 checks = []
